@@ -625,12 +625,40 @@ ACTION_SHAPES = ["def3", "def2", "lambda3", "lambda2", "bound3", "bound2", "part
                  "def1", "lambda1", "def0", "classmethod2", "static3"]
 
 
+class Log(list):
+    """fired actions (id, loc); `trial` is the stack of alternatives whose try_parse (first pass of Or / Each) is
+    running, `trial_events` the actions fired meanwhile"""
+
+    def __init__(self):
+        super().__init__()
+        self.trial = []
+        self.trial_events = []
+
+
+def hook_first_pass(e, child_tree, log):
+    """Or / Each call `e.try_parse(...)` on their alternatives in the first pass (core.py:4277, 4624): make that
+    observable.  A refactoring that no longer goes through the instance attribute only blunts this oracle."""
+    orig = e.try_parse
+
+    def hooked(*a, **kw):
+        log.trial.append(child_tree)
+        try:
+            return orig(*a, **kw)
+        finally:
+            log.trial.pop()
+
+    e.try_parse = hooked
+    return e
+
+
 def make_logger(pp, a, log):
     """a real callable of shape a['shape'] that logs (id, loc or -1) and then behaves as a['kind']"""
     aid, kind, shape = a["id"], a["kind"], a["shape"]
 
     def core(s, l, have_s, have_l):
         log.append((aid, l if have_l else -1))
+        if getattr(log, "trial", None):
+            log.trial_events.append((aid, log.trial[-1]))
         if kind == "keep":
             return None
         if kind == "fail":
@@ -712,16 +740,23 @@ def build_real(pp, t, log):
             e = pp.And([e])
         fns = [make_logger(pp, a, log) for a in t[1]]
         if fns:
-            e.add_parse_action(*fns, call_during_try=bool(t[2]))
+            # exercise both entry points and, for call_during_try=False, the default of the keyword
+            meth = e.set_parse_action if t[1][0]["id"] % 2 == 0 else e.add_parse_action
+            if t[2]:
+                meth(*fns, call_during_try=True)
+            elif t[1][0]["id"] % 3 == 0:
+                meth(*fns, call_during_try=False)
+            else:
+                meth(*fns)
         return e
     if k == "seq":
         return pp.And([build_real(pp, t[1], log), build_real(pp, t[2], log)])
     if k == "alt":
         return pp.MatchFirst([build_real(pp, t[1], log), build_real(pp, t[2], log)])
     if k == "or":
-        return pp.Or([build_real(pp, x, log) for x in t[1:]])
+        return pp.Or([hook_first_pass(build_real(pp, x, log), x, log) for x in t[1:]])
     if k == "each":
-        return pp.Each([build_real(pp, x, log) for x in t[1:]])
+        return pp.Each([hook_first_pass(build_real(pp, x, log), x, log) for x in t[1:]])
     if k == "skipto":
         return pp.SkipTo(build_real(pp, t[1], log), include=bool(t[3]),
                          fail_on=None if t[2] is None else build_real(pp, t[2], log))
@@ -752,7 +787,7 @@ def acts_of(t, out=None):
 def run_gate_real(pp, t, s, da, via_parse_string=False):
     """da=False: e.try_parse(s, 0) (the trial-matching entry point); da=True: e.try_parse(..., do_actions=True);
     via_parse_string: e.parse_string(s) (oracle only: its And/preParse wrapper is outside the mini-model)"""
-    log = []
+    log = Log()
     e = build_real(pp, t, log)
     try:
         pp.ParserElement.reset_cache()
@@ -925,6 +960,10 @@ def oracle_gate(t, s, da, log):
     if bad:
         return (f"action id(s) {sorted(set(bad))} fired although they sit only in trial-matched positions "
                 f"(do_actions={da}) without call_during_try", "PP.ActionGate.fired_ids_firable / no_actions_when_trying")
+    bad = [i for i, child in getattr(log, "trial_events", []) if i not in firable(child, False)]
+    if bad:
+        return (f"action id(s) {sorted(set(bad))} fired inside the first (trial) pass of an Or / Each although their "
+                f"element has no call_during_try", "PP.ActionGate.or_first_pass_fires_nothing / each_first_pass_fires_nothing")
     return None
 
 
